@@ -114,7 +114,13 @@ func runsFor(prop, tier string) []run {
 		c4.Blocks = 2
 		c4.InitOps = []string{"W:0:16", "SnapU", "W:0:16", "SnapA"}
 		c4.MaxSnaps = 5
+		// the same operations sent the way the controller and the sync tasks send them: backend/remote.Remote and
+		// replica/client.ReplicaClient -> replica/rest router -> the same server
+		c5 := c2
+		c5.ViaREST = true
+		c5.Alphabet = []string{"W", "SnapU", "SnapA", "Rm", "Mark", "ReopenP", "Reload", "Revert"}
 		return []run{
+			{"2blk-mixed-punch-through-rest", c5, pick(4, 6), minutes(pickf(0.7, 6))},
 			{"2blk-held-holes", c4, pick(5, 6), minutes(pickf(1.0, 8))},
 			{"3blk-aligned-punch", c, pick(5, 7), minutes(pickf(1.7, 16))},
 			{"3blk-from-two-user-snapshots", c3, pick(3, 4), minutes(pickf(0.9, 8))},
@@ -130,7 +136,9 @@ func runsFor(prop, tier string) []run {
 			WShapes: ws, RShapes: [][2]int{{0, 16}, {12, 8}}, Oracles: []string{"read", "snapdirect", "snaprevert", "crashopen", "reopen", "chain"}, MaxSnaps: 3, MaxGrow: 2, SysRmOnly: true}
 		c2 := c
 		c2.Punch = false
-		return []run{{"2blk-grow-punch", c, pick(5, 7), minutes(pickf(1.5, 8))}, {"2blk-grow-nopunch", c2, pick(5, 7), minutes(pickf(1.5, 8))}}
+		c3 := c
+		c3.ViaREST = true
+		return []run{{"2blk-grow-punch-through-rest", c3, pick(4, 6), minutes(pickf(0.7, 6))}, {"2blk-grow-punch", c, pick(5, 7), minutes(pickf(1.5, 8))}, {"2blk-grow-nopunch", c2, pick(5, 7), minutes(pickf(1.5, 8))}}
 	case "C12":
 		alpha := []string{"W", "SnapU", "SnapA", "SnapDup", "SnapDupOld", "Mark", "Rm", "RmHead", "RmLatest", "RmBase", "RmUnknown", "RmRawHead", "RmRawLatest", "RmRawUnknown",
 			"RmWrongMode", "Revert", "RevertUnknown", "Grow", "Shrink", "ResizeGarbage", "Checkpoint", "CheckpointUnknown", "ReopenP", "Reload"}
@@ -143,7 +151,9 @@ func runsFor(prop, tier string) []run {
 		c3.InitOps = []string{"W:0:16", "SnapA", "W:0:8", "SnapA", "W:8:8", "SnapU", "W:4:8", "SnapA", "W:0:8"}
 		c3.MaxSnaps = 6
 		c3.MaxWrites = 7
-		return []run{{"2blk-mgmt", c, pick(5, 6), minutes(pickf(1.4, 10))}, {"2blk-mgmt-from-chain3", c2, pick(4, 5), minutes(pickf(1.0, 10))}, {"2blk-mgmt-from-auto-chain4", c3, pick(3, 5), minutes(pickf(0.9, 8))}}
+		c4 := c2
+		c4.ViaREST = true
+		return []run{{"2blk-mgmt-from-chain3-through-rest", c4, pick(3, 5), minutes(pickf(0.7, 6))}, {"2blk-mgmt", c, pick(5, 6), minutes(pickf(1.4, 10))}, {"2blk-mgmt-from-chain3", c2, pick(4, 5), minutes(pickf(1.0, 10))}, {"2blk-mgmt-from-auto-chain4", c3, pick(3, 5), minutes(pickf(0.9, 8))}}
 	case "C17":
 		alpha := []string{"Close", "Open", "Mode:RW", "Mode:WO", "Mode:junk", "Rebuild:t", "Rebuild:f", "Reload", "W", "R", "Sync", "Unmap", "SnapA", "SetRev:9", "RmGate", "Mark", "Rm", "RevertUnknown", "SnapDup", "Shrink", "ResizeGarbage", "RmHead", "RmRawLatest", "RmUnknown"}
 		c := ea.Cfg{Blocks: 2, Alphabet: alpha, WShapes: [][2]int{{0, 8}}, RShapes: [][2]int{{0, 16}}, Oracles: []string{"rev", "read"}, MaxSnaps: 3, MaxWrites: 4,
